@@ -1,4 +1,5 @@
 import ClaripyProofs.Lemmas.FP.FoldD2
+import ClaripyProofs.Lemmas.FP.RoundModes
 /-!
 # C02 — IEEE-754 meaning of floating-point folding in every rounding mode
 
@@ -16,6 +17,65 @@ with concrete witnesses below.
 -/
 namespace Claripy.Props.C02
 open Claripy.FP Claripy.FP.Fold
+
+/-! ## the rounding function is correct with respect to the exact value, in every mode, for every format
+
+Reading (see `Lemmas/FP/Round.lean`): a finite magnitude `g` has the real value `sval f g / 2^q`; the input of
+`roundScaled` denotes `x = (sc/den) / 2^q` (`x > 0`).  `sval f g * den ≤ sc` says `value g ≤ x`; `infMag` has the value
+`2^(emax+1)`.  All statements hold for every well-formed format (in particular binary32, binary64), every `sc`, `den > 0`.-/
+
+/-- overflow happens exactly when the exact value reaches `2^(emax+1)`; the result is then the mode's overflow value -/
+theorem round_overflow_spec (f : Fmt) (wf : WF f) (rm : RM) (neg : Bool) (sc den : Nat) (hden : 0 < den)
+    (h : sval f f.infMag * den ≤ sc) : roundScaled f rm neg sc den = overflowMag f rm neg :=
+  roundScaled_overflow f rm neg sc den (fun hR => by have := (inRange_iff f wf sc den hden).1 hR; omega)
+
+/-- below overflow: `floorMag` is THE float with `value ≤ x < value of its successor`, and every mode returns it or its successor -/
+theorem round_floor_spec (f : Fmt) (wf : WF f) (rm : RM) (neg : Bool) (sc den : Nat) (hden : 0 < den)
+    (h : sc < sval f f.infMag * den) :
+    sval f (floorMag f sc den) * den ≤ sc ∧ sc < sval f (floorMag f sc den + 1) * den ∧
+    (∀ g, sval f g * den ≤ sc → sc < sval f (g + 1) * den → g = floorMag f sc den) ∧
+    (roundScaled f rm neg sc den = floorMag f sc den ∨ roundScaled f rm neg sc den = floorMag f sc den + 1) :=
+  have hR := (inRange_iff f wf sc den hden).2 h
+  ⟨(floor_law f sc den hden).1, (floor_law f sc den hden).2,
+   fun g h1 h2 => (floor_unique f sc den g hden h1 h2).symm, round_floor_or_succ f rm neg sc den hR⟩
+
+/-- RTZ truncates; RTP/RTN truncate on the side pointing to zero and otherwise keep exact values and go to the successor -/
+theorem round_directed_spec (f : Fmt) (wf : WF f) (neg : Bool) (sc den : Nat) (hden : 0 < den)
+    (h : sc < sval f f.infMag * den) :
+    roundScaled f .RTZ neg sc den = floorMag f sc den ∧
+    roundScaled f .RTP true sc den = floorMag f sc den ∧ roundScaled f .RTN false sc den = floorMag f sc den ∧
+    roundScaled f .RTP false sc den =
+      (if sc = sval f (floorMag f sc den) * den then floorMag f sc den else floorMag f sc den + 1) ∧
+    roundScaled f .RTN true sc den =
+      (if sc = sval f (floorMag f sc den) * den then floorMag f sc den else floorMag f sc den + 1) :=
+  have hR := (inRange_iff f wf sc den hden).2 h
+  ⟨round_rtz f neg sc den hR, round_toward f .RTP true sc den hR (Or.inl ⟨rfl, rfl⟩),
+   round_toward f .RTN false sc den hR (Or.inr ⟨rfl, rfl⟩),
+   round_away f .RTP false sc den hden hR (Or.inl ⟨rfl, rfl⟩), round_away f .RTN true sc den hden hR (Or.inr ⟨rfl, rfl⟩)⟩
+
+/-- RNA / RNE: below the midpoint → floor, above → successor, at the midpoint → away from zero resp. to the even one -/
+theorem round_nearest_spec (f : Fmt) (wf : WF f) (neg : Bool) (sc den : Nat) (hden : 0 < den)
+    (h : sc < sval f f.infMag * den) :
+    let lo := floorMag f sc den
+    let mid := (sval f lo + sval f (lo + 1)) * den
+    roundScaled f .RNA neg sc den = (if 2 * sc < mid then lo else lo + 1) ∧
+    roundScaled f .RNE neg sc den =
+      (if 2 * sc < mid then lo else if 2 * sc > mid then lo + 1 else if lo % 2 = 0 then lo else lo + 1) :=
+  have hR := (inRange_iff f wf sc den hden).2 h
+  ⟨round_rna f neg sc den hden hR, round_rne f wf neg sc den hden hR⟩
+
+/-- a representable value is returned unchanged in every mode (so every operation whose exact result is a float is exact) -/
+theorem round_exact_spec (f : Fmt) (wf : WF f) (rm : RM) (neg : Bool) (g den : Nat) (hden : 0 < den) (hg : g < f.infMag) :
+    roundScaled f rm neg (sval f g * den) den = g := round_exact f wf rm neg g den hden hg
+
+/-- the float order is the order of the values, and distinct floats have distinct values -/
+theorem value_order_spec (f : Fmt) (a b : Nat) : (a < b → sval f a < sval f b) ∧ (sval f a = sval f b → a = b) :=
+  ⟨sval_strictMono f, sval_injective f⟩
+
+-- non-vacuity: 1/3 in binary64 (sc = 2^q, den = 3): floor, RNE = floor, RTP = floor + 1
+example : floorMag binary64 (2 ^ 1074) 3 = 0x3FD5555555555555 ∧
+    roundScaled binary64 .RNE false (2 ^ 1074) 3 = 0x3FD5555555555555 ∧
+    roundScaled binary64 .RTP false (2 ^ 1074) 3 = 0x3FD5555555555556 := by decide +kernel
 
 /-! ## translator tie: the generated table -/
 
